@@ -49,6 +49,7 @@ package crypto
 //@ func HashE
 //@   tags C10
 //@   safety C06 C10
+//@   requires forall j :: 0 <= j && j < len(publicKeys) ==> publicKeys[j] != nil
 //@   ensures @spec [C10] result == sha256(bytesOf(hashe.cat(seq(publicKeys), heap("H.github.com/decred/dcrd/dcrec/secp256k1/v4.PublicKey"), len(publicKeys))))
 //@   loop range(publicKeys) invariant 0 <= i && i <= len(publicKeys) && keys == hashe.cat(seq(publicKeys), heap("H.github.com/decred/dcrd/dcrec/secp256k1/v4.PublicKey"), i)
 
